@@ -140,7 +140,7 @@ CHECKS = {
     ),
     "C09": dict(
         category="model_checking",
-        text="Spec S8. OpTables.tla: the 39 tables xdis hands out x 256 opcode numbers as a state space; TLC checks 14 invariants in every state: "
+        text="Spec S8. OpTables.tla: the 39 tables xdis hands out x 256 opcode numbers as a state space; TLC checks 16 invariants in every state: "
              "names<->numbers bijection, the frozen category sets the decoder consults = the published has* lists, categorised opcodes defined and operand-taking unless CPython's table has the same gap, jrel/jabs disjoint, "
              "EXTENDED_ARG and its shift, and equality with the live opcode module of the nine installed interpreters (names, HAVE_ARGUMENT/hasarg, "
              "seven category sets). OpTablesTrace.tla replays the recorded derivation of every table (init/def/rm/finalize, hook H2) on an abstract "
